@@ -684,6 +684,49 @@ def rule_crc_enforced(report, prog):
                              ('nfc.clf.pn533.Device._tt1_send_cmd_recv_rsp', 'self.check_crc_b(data) is False', None)):
         f = prog.func(q)
         cfg = cfg_of(f)
+        if 'tt2' in q:
+            # the Type 2 path folded (checker's own evaluator) with the chipset exchange and the CRC check modelled: responses of 0..2
+            # octets pass through as they are, longer ones only when the CRC check says so and then without the two CRC octets,
+            # anything else raises TransmissionError
+            from ..q import fold_block, NotConst
+            n += 1
+            body = [st for st in f.node.body if not (isinstance(st, ast.Expr) and isinstance(st.value, ast.Constant))]
+            bad = []
+            checked = []
+            for ln in (0, 1, 2, 3, 4, 18):
+                for good in (True, False):
+                    rsp = bytes((i * 9 + 5) & 0xFF for i in range(ln))
+                    del checked[:]
+
+                    def crc(d, good=good):
+                        checked.append(bytes(d))
+                        return good
+                    env = {f.params[1] if len(f.params) > 1 else 'data': bytearray(b'\x30\x00'), f.params[2] if len(f.params) > 2 else 'timeout': 0.1,
+                           '__calls__': {'self.chipset.in_communicate_thru': lambda *a: bytearray(rsp), 'self.chipset.in_comm_rf': lambda *a: bytearray(rsp),
+                                         'self.check_crc_a': crc}}
+                    try:
+                        r = fold_block(body, env)
+                    except (NotConst, IndexError, TypeError, ValueError) as e:
+                        r = ('error', '%s: %s' % (type(e).__name__, e))
+                    if ln <= 2:
+                        want = ('return', rsp)
+                    elif good:
+                        want = ('return', rsp[:-2])
+                    else:
+                        want = ('raise', 'nfc.clf.TransmissionError')
+                    okk = (r[0] == want[0] == 'return' and r[1] is not None and bytes(r[1]) == want[1]) or \
+                        (r[0] == want[0] == 'raise' and r[1].startswith(want[1]))
+                    if okk and ln > 2 and checked != [rsp]:
+                        okk = False
+                    if not okk:
+                        bad.append('%d octet response, CRC %s: %s %s (CRC computed over %s)' % (ln, 'good' if good else 'bad', r[0], str(r[1])[:40], [c_.hex() for c_ in checked]))
+            report.check(not bad, 'C14-R6', key(q, 'data returned only on the branch where the CRC check passed'), f.loc(),
+                         '%s can return tag data without a passed CRC check: %s' % (q, '; '.join(bad[:2])))
+            report.check(not any('CRC bad' in b_ for b_ in bad), 'C14-R6', key(q, 'CRC failure raises TransmissionError'), f.loc(),
+                         'CRC failure is not reported as TransmissionError: %s' % '; '.join(b_ for b_ in bad if 'CRC bad' in b_)[:200])
+            report.check(not any('CRC good' in b_ for b_ in bad), 'C14-R6', key(q, 'CRC bytes stripped only when present'), f.loc(),
+                         'return expression changed: %s' % '; '.join(b_ for b_ in bad if 'CRC good' in b_)[:200])
+            continue
         edges = [(t, 'false') for e, t in cfg.test_nodes.items() if norm(e) == chk]
         if 'tt2' in q:
             edges += [(t, 'false') for e, t in cfg.test_nodes.items() if norm(e) == 'len(data) > 2']
